@@ -298,8 +298,9 @@ pub fn set_preference(name: String, value: String) -> Result<()> {
 
     fn to_float(name: &str, value: &str) -> Result<f64> {
         return match value.parse::<f64>() {
-            Ok(val) => Ok(val),
-            Err(_) => bail!("SetPreference: preference'{}'s value '{}' must be a float", name, value),
+            Ok(val) if val.is_finite() => Ok(val),
+            // "NaN", "inf", and overflowing values such as "1e999" parse, but they are not usable values (they end up in TTS attributes)
+            _ => bail!("SetPreference: preference'{}'s value '{}' must be a float", name, value),
         };
     }
 }
